@@ -2,14 +2,19 @@
 //! so replay, shrinking and the Lean model all see the same thing) and rendered deterministically.
 //!
 //! encoding  : items separated by ` | `, fields of an item by one space
-//!   R <name> <kind> <len|-> <group|-> <flags|-> [<sampler props {..}>]   resource (flags: s static sampler, b bindless)
-//!                                            for kind `cbuffer`, len = number of members (`0` = empty block)
+//!   R <name> <kind> <len|-> <group|-> <flags|-> [<sampler props {..}>]   resource (flags: s static sampler, b bindless,
+//!                                            t declared through a typedef, x the sampler properties are invalid)
+//!                                            len `0` = unsized array; for kind `cbuffer`, len = number of members
+//!                                            (`0` = empty block)
+//!   T <k>                                    text that mentions RSSL_TARGET_* where it can not matter (k: 0 comment,
+//!                                            1 `#if 0` block, 2 `#ifdef` of an undefined name, 3 unused macro body)
 //!   S <k>                                    `static int s_value<k> = 0;`
 //!   F <name> <shape><flags> <threads|-> <uses|-> <calls|-> <statics|->
 //!         shape : h `void f()`  c compute  v vertex  p pixel  r pixel reading a per-primitive attribute  t task  m mesh
 //!                 n mesh with payload  q mesh with per-primitive output and control flow around the output writes
 //!         flags : d declaration only, T function template, N inside `namespace ns1`, M method of `struct S_<name>`,
-//!                 D only under `#if WIDE_ON`, E only under `#if !WIDE_ON`
+//!                 D only under `#if WIDE_ON`, E only under `#if !WIDE_ON`, R rich body (method calls on the resources,
+//!                 locals, arithmetic)
 //!         threads `8,c4,1` (cN = a constant expression with value N); uses/calls names joined by `.`; statics `0.2`
 //!   P <name> <flags|-> <prop> <prop> ...     pipeline block (flags N D E as above)
 //!         prop  : Name=val ; val : i:ident  q:qualified::ident  s:String  n:123  k:5 (constant expression)  m:1 (= -1)
@@ -48,6 +53,10 @@ pub struct WRes {
     pub group: Option<u32>,
     pub static_sampler: bool,
     pub bindless: bool,
+    /// declared through `typedef <type>[<len>] T_<name>;`
+    pub typedefd: bool,
+    /// the static sampler's properties are invalid (the front end rejects the file at this declaration)
+    pub bad_sampler: bool,
     pub sampler_props: Vec<Prop>,
 }
 
@@ -81,6 +90,8 @@ pub struct WPipe {
 pub enum WItem {
     Res(WRes),
     Static(usize),
+    /// inactive text that mentions the target macros
+    Inactive(usize),
     Func(WFunc),
     Pipe(WPipe),
 }
@@ -110,6 +121,7 @@ pub const WRES_KINDS: &[(&str, &str)] = &[
     ("ConstantBuffer", "ConstantBuffer<CbS>"),
     ("SamplerState", "SamplerState"),
     ("SamplerComparisonState", "SamplerComparisonState"),
+    ("RaytracingAccelerationStructure", "RaytracingAccelerationStructure"),
     ("cbuffer", "cbuffer"),
     // a structured buffer whose element has different layouts in HLSL and Metal: rejected by layout validation only
     ("TrapBuffer", "StructuredBuffer<LayoutTrap>"),
@@ -157,6 +169,12 @@ impl WProgram {
                     if r.bindless {
                         fl.push('b');
                     }
+                    if r.typedefd {
+                        fl.push('t');
+                    }
+                    if r.bad_sampler {
+                        fl.push('x');
+                    }
                     if fl.is_empty() {
                         fl.push('-');
                     }
@@ -167,6 +185,7 @@ impl WProgram {
                     s
                 }
                 WItem::Static(k) => format!("S {}", k),
+                WItem::Inactive(k) => format!("T {}", k),
                 WItem::Func(f) => {
                     let th = match &f.threads {
                         None => "-".to_string(),
@@ -212,10 +231,13 @@ impl WProgram {
                         group: if f[4] == "-" { None } else { Some(f[4].parse().ok()?) },
                         static_sampler: f[5].contains('s'),
                         bindless: f[5].contains('b'),
+                        typedefd: f[5].contains('t'),
+                        bad_sampler: f[5].contains('x'),
                         sampler_props,
                     }));
                 }
                 Some("S") if f.len() == 2 => items.push(WItem::Static(f[1].parse().ok()?)),
+                Some("T") if f.len() == 2 => items.push(WItem::Inactive(f[1].parse().ok()?)),
                 Some("F") if f.len() == 7 => {
                     let mut ch = f[2].chars();
                     let shape = ch.next()?;
@@ -440,10 +462,49 @@ fn render_props(w: &mut Writer, props: &[Prop], indent: usize, pipe: &str, k: &m
     }
 }
 
+/// a statement that really uses the resource (method call / subscript / member), or `None` when only a mention is possible
+fn rich_use(res: &WRes) -> Option<String> {
+    let g = match res.len {
+        Some(0) => return None,
+        Some(_) => format!("{}[0u]", res.name),
+        None => res.name.clone(),
+    };
+    Some(match res.kind.as_str() {
+        "Buffer" | "StructuredBuffer" => format!("    acc += {}.Load(0);\n", g),
+        "RWBuffer" | "RWStructuredBuffer" => format!("    acc += {}.Load(0);\n    {}[1] = acc;\n", g, g),
+        "ByteAddressBuffer" => format!("    word += {}.Load(0u);\n    acc += {}.Load<float4>(16u);\n", g, g),
+        "RWByteAddressBuffer" => format!("    word += {}.Load(4u);\n    {}.Store(0u, word);\n", g, g),
+        "BufferAddress" => format!("    word += {}.Load<uint>(0u);\n", g),
+        "RWBufferAddress" => format!("    word += {}.Load<uint>(8u);\n    {}.Store<uint>(8u, word);\n", g, g),
+        "Texture2D" => format!("    acc += {}.Load(int3(0, 0, 0));\n", g),
+        "Texture2DArray" | "Texture3D" => format!("    acc += {}.Load(int4(0, 0, 0, 0));\n", g),
+        "RWTexture2D" => format!("    acc += {}.Load(int2(0, 0));\n    {}[uint2(0, 0)] = acc;\n", g, g),
+        "RWTexture2DArray" => format!("    acc += {}.Load(int3(0, 0, 0));\n", g),
+        "RWTexture3D" => format!("    {}[uint3(0, 0, 0)] = acc;\n", g),
+        "ConstantBuffer" => format!("    acc += {}.v;\n", g),
+        "TrapBuffer" => format!("    acc.x += {}.Load(0).a;\n", g),
+        _ => return None,
+    })
+}
+
 fn body_of(prog: &WProgram, f: &WFunc) -> String {
     let mut s = String::new();
+    let rich = f.flags.contains('R');
+    if rich {
+        s.push_str("    float4 acc = float4(0, 0, 0, 0);\n    uint word = K_ONE;\n");
+    }
     for u in &f.uses {
         if let Some(res) = prog.resources().into_iter().find(|r| &r.name == u) {
+            if rich && res.kind == "cbuffer" && res.len != Some(0) {
+                s.push_str(&format!("    acc += {}_v0;\n", res.name));
+                continue;
+            }
+            if rich && res.kind != "cbuffer" {
+                if let Some(st) = rich_use(res) {
+                    s.push_str(&st);
+                    continue;
+                }
+            }
             if res.kind == "cbuffer" {
                 if res.len != Some(0) {
                     s.push_str(&format!("    {}_v0;\n", res.name));
@@ -466,6 +527,9 @@ fn body_of(prog: &WProgram, f: &WFunc) -> String {
     }
     for k in &f.statics {
         s.push_str(&format!("    s_value{} = s_value{} + 1;\n", k, k));
+    }
+    if rich {
+        s.push_str("    if (acc.x > 1.0 && word != 0u)\n    {\n        word = (uint)acc.y << 2;\n    }\n    for (uint it = 0; it < word && it < 4u; ++it)\n    {\n        acc.z += (float)it * 0.5;\n    }\n");
     }
     s
 }
@@ -557,13 +621,15 @@ fn render_res(r: &WRes) -> String {
         return format!("{}cbuffer {} {{ {} }}", s, r.name, members.join(" "));
     }
     let ty = WRES_KINDS.iter().find(|(k, _)| *k == r.kind).map(|(_, t)| *t).unwrap_or("Texture2D<float4>");
-    s.push_str(&format!("{} {}", ty, r.name));
-    if let Some(n) = r.len {
-        if n == 0 {
-            s.push_str("[]");
-        } else {
-            s.push_str(&format!("[{}]", n));
-        }
+    let dims = match r.len {
+        Some(0) => "[]".to_string(),
+        Some(n) => format!("[{}]", n),
+        None => String::new(),
+    };
+    if r.typedefd {
+        s = format!("typedef {} T_{}{};\n{}T_{} {}", ty, r.name, dims, s, r.name, r.name);
+    } else {
+        s.push_str(&format!("{} {}{}", ty, r.name, dims));
     }
     if r.static_sampler {
         if r.sampler_props.is_empty() {
@@ -613,8 +679,17 @@ pub fn render_wide(prog: &WProgram, o: &RenderOpts) -> Rendered {
             w.push(c);
         }
         match it {
-            WItem::Res(r) => w.push(&render_res(r)),
+            WItem::Res(r) => {
+                lines.push(((w.file.clone(), w.line + if r.typedefd { 1 } else { 0 }), (format!("R:{}", r.name), 0)));
+                w.push(&render_res(r));
+            }
             WItem::Static(k) => w.push(&format!("static int s_value{} = 0;", k)),
+            WItem::Inactive(k) => w.push(match k % 4 {
+                0 => "// RSSL_TARGET_MSL and RSSL_TARGET_HLSL are only named in this comment /* RSSL_TARGET_MSL */",
+                1 => "#if 0\n#if RSSL_TARGET_MSL\nstatic NoSuchType g_only_on_metal;\n#else\nstatic AlsoNoSuchType g_only_on_hlsl;\n#endif\n#endif",
+                2 => "#ifdef WIDE_NEVER_DEFINED\n#if RSSL_TARGET_HLSL == 1\nbroken (\n#endif\n#elif 0\nRSSL_TARGET_MSL\n#endif",
+                _ => "#define WIDE_UNUSED_MACRO (RSSL_TARGET_MSL + RSSL_TARGET_HLSL)",
+            }),
             WItem::Func(f) => w.push(&render_func(prog, f)),
             WItem::Pipe(p) => {
                 let ns = p.flags.contains('N');
@@ -757,6 +832,12 @@ fn gen_sampler_props(rng: &mut Rng) -> Vec<Prop> {
 }
 
 pub struct WideOpts {
+    /// allow `T g[];` (rejected by the Metal back end)
+    pub unsized_arrays: bool,
+    /// probability (percent) that a static sampler gets invalid properties
+    pub bad_sampler_percent: u64,
+    /// probability (percent) that a function gets a rich body
+    pub rich_percent: u64,
     /// allow mesh / task pipelines (rejected by the Metal back end when combined with some intrinsics)
     pub allow_mesh: bool,
     /// probability (percent) that the program gets "odd" edits: errors, duplicates, clashes, misplaced items
@@ -766,7 +847,7 @@ pub struct WideOpts {
 
 impl Default for WideOpts {
     fn default() -> Self {
-        WideOpts { allow_mesh: true, odd_percent: 50, max_pipes: 4 }
+        WideOpts { unsized_arrays: true, bad_sampler_percent: 8, rich_percent: 40, allow_mesh: true, odd_percent: 50, max_pipes: 4 }
     }
 }
 
@@ -787,11 +868,32 @@ pub fn gen_wide(rng: &mut Rng, o: &WideOpts) -> WProgram {
         let static_sampler = is_sampler && rng.chance(1, 2);
         let can_array = kind != "cbuffer" && !static_sampler && kind != "ConstantBuffer";
         let mut len = if can_array && rng.chance(1, 4) { Some(rng.range(1, 3) as u32) } else { None };
+        if len.is_some() && o.unsized_arrays && rng.chance(1, 6) {
+            len = Some(0);
+        }
         let bindless = len.is_some() && rng.chance(1, 3) && !kind.contains("Address");
+        let typedefd = kind != "cbuffer" && !static_sampler && len != Some(0) && rng.chance(1, 6);
         if kind == "cbuffer" {
             len = Some(*rng.pick(&[0u32, 1, 1, 2, 5]));
         }
-        let sampler_props = if static_sampler && rng.chance(2, 3) { gen_sampler_props(rng) } else { Vec::new() };
+        let mut sampler_props = if static_sampler && rng.chance(2, 3) { gen_sampler_props(rng) } else { Vec::new() };
+        let bad_sampler = static_sampler && rng.below(100) < o.bad_sampler_percent;
+        if bad_sampler {
+            match rng.below(5) {
+                0 => sampler_props.push(Prop { name: "Philter".into(), val: Val::Ident("MIN_MAG_MIP_POINT".into()) }),
+                1 => sampler_props.push(Prop { name: "AddressU".into(), val: Val::Ident("Mirror".into()) }),
+                2 => {
+                    sampler_props.retain(|p| p.name != "Filter");
+                    sampler_props.push(Prop { name: "Filter".into(), val: Val::Ident("MIN_MAG_MIP_LINEAR".into()) });
+                    sampler_props.push(Prop { name: "Filter".into(), val: Val::Ident("MIN_MAG_MIP_POINT".into()) });
+                }
+                3 => {
+                    sampler_props.retain(|p| p.name != "MaxAnisotropy");
+                    sampler_props.push(Prop { name: "MaxAnisotropy".into(), val: Val::Neg(1) });
+                }
+                _ => sampler_props.push(Prop { name: "BorderColor".into(), val: Val::Num(1) }),
+            }
+        }
         res_nodes.push(nodes.len());
         nodes.push(Node {
             item: WItem::Res(WRes {
@@ -801,10 +903,18 @@ pub fn gen_wide(rng: &mut Rng, o: &WideOpts) -> WProgram {
                 group: if rng.chance(1, 3) { Some(rng.below(3) as u32) } else { None },
                 static_sampler,
                 bindless,
+                typedefd,
+                bad_sampler,
                 sampler_props,
             }),
             deps: Vec::new(),
         });
+    }
+    for _ in 0..rng.below(3) {
+        if rng.chance(1, 3) {
+            let k = rng.below(4) as usize;
+            nodes.push(Node { item: WItem::Inactive(k), deps: Vec::new() });
+        }
     }
     let nstatics = rng.below(4) as usize;
     let mut static_nodes = Vec::new();
@@ -846,7 +956,10 @@ pub fn gen_wide(rng: &mut Rng, o: &WideOpts) -> WProgram {
     };
     for i in 0..nh {
         let (uses, calls, statics, deps) = gen_body(rng, &nodes, &helper_nodes);
-        let flags = if rng.chance(1, 5) { "N".to_string() } else { String::new() };
+        let mut flags = if rng.chance(1, 5) { "N".to_string() } else { String::new() };
+        if rng.below(100) < o.rich_percent {
+            flags.push('R');
+        }
         helper_nodes.push(nodes.len());
         nodes.push(Node {
             item: WItem::Func(WFunc { name: format!("helper{}", i), shape: 'h', flags, threads: None, uses, calls, statics }),
@@ -901,6 +1014,9 @@ pub fn gen_wide(rng: &mut Rng, o: &WideOpts) -> WProgram {
                 let mut flags = String::new();
                 if rng.chance(1, 8) {
                     flags.push('N');
+                }
+                if rng.below(100) < o.rich_percent {
+                    flags.push('R');
                 }
                 let n = nodes.len();
                 nodes.push(Node {
@@ -1335,7 +1451,7 @@ pub fn gen_wide(rng: &mut Rng, o: &WideOpts) -> WProgram {
         let rank = |i: usize| -> u32 {
             match (&nodes[i].item, style) {
                 // classic: resources, statics, functions, pipelines
-                (WItem::Res(_), 0) | (WItem::Static(_), 0) => 0,
+                (WItem::Res(_), 0) | (WItem::Static(_), 0) | (WItem::Inactive(_), 0) => 0,
                 (WItem::Func(_), 0) => 1,
                 (WItem::Pipe(_), 0) => 2,
                 // pipelines as early as possible, resources as late as possible
